@@ -191,8 +191,8 @@ func c14Meaning(s *c14Scn) c14Verdict {
 //                 the signatures cannot be assigned to DISTINCT listed keys with every
 //                 signature assigned to an ed25519 key valid under it (any order, other
 //                 key types treated as accepting anything — an over-approximation);
-//   must accept : ed25519 keys only, and the signatures are valid, in list order, for
-//                 distinct listed keys;
+//   must accept : the signatures are valid, in list order, for distinct listed ed25519 keys and
+//                 no key of another type is listed before the last key used;
 //   otherwise   : unspecified (order-dependent, unrecognised or entropy key types).
 func c14MeaningUC(s *c14Scn, uc types.UnlockConditions) c14Verdict {
 	if s.Height < uc.Timelock || len(s.Pres) > 0 || uint64(len(s.Sigs)) != uc.SignaturesRequired {
@@ -236,23 +236,17 @@ func c14MeaningUC(s *c14Scn, uc types.UnlockConditions) c14Verdict {
 			return c14Reject
 		}
 	}
-	allEd := true
-	for _, k := range uc.PublicKeys {
-		if !isEd(k) {
-			allEd = false
-		}
-	}
-	if !allEd {
-		return c14Unspecified
-	}
-	// in-order assignment
+	// in-order assignment to ed25519 keys only: the required count of distinct listed keys have signed, in list order.
+	// Keys of other types listed AFTER the last key used play no part in that (a 1-of-[ed25519, entropy] policy signed
+	// by its first key, or any key list with zero required signatures, means "accept"); as soon as the walk would have
+	// to pass a key of another type the statement is silent.
 	ki := 0
 	for si := range s.Sigs {
-		for ki < len(uc.PublicKeys) && !accepts(ki, si) {
+		for ki < len(uc.PublicKeys) && isEd(uc.PublicKeys[ki]) && !accepts(ki, si) {
 			ki++
 		}
-		if ki == len(uc.PublicKeys) {
-			return c14Unspecified // valid only out of order
+		if ki == len(uc.PublicKeys) || !isEd(uc.PublicKeys[ki]) {
+			return c14Unspecified // valid only out of order, or only through a key of another type
 		}
 		ki++
 	}
